@@ -288,7 +288,7 @@ func (c *Channel) Invoke(ctx context.Context, method string, req, resp interface
 			}
 			switch {
 			case r.err != nil:
-				return r.err
+				return internal.TranslateContextError(r.err)
 			case r.data != nil:
 				if gotResponse {
 					return status.Error(codes.Internal, "server sent unexpected response message")
